@@ -23,6 +23,10 @@ fn main() {
         std::process::exit(2);
     }
     let id = argv[1].as_str();
+    if id == "gen-c20" {
+        xfam::gen_c20(&argv[2], argv.get(3).map(|x| x == "thorough").unwrap_or(false));
+        return;
+    }
     let args = parse_args(&argv[2..]);
     let code = match id {
         "C01" => run_check(&wfam::C01, &args),
